@@ -656,11 +656,15 @@ class ExprBuilder:
     """Builds expressions for operands of one function, following definitions.
     multi: how to treat locals with several definitions: 'leaf' or 'phi'."""
 
-    def __init__(self, f, multi='leaf', transparent=True, max_depth=40):
+    def __init__(self, f, multi='leaf', transparent=True, max_depth=40, inline=False, _inline_depth=0):
         self.f = f
         self.multi = multi
         self.transparent = transparent
         self.max_depth = max_depth
+        # inline: see through small, straight-line, crate-local helper functions (e.g. an extracted
+        # `fn direct_index(fd) -> u32 { (fd + 1).cast_unsigned() }`) by substituting their return expression
+        self.inline = inline
+        self._inline_depth = _inline_depth
 
     def operand(self, op, depth=0, stack=()):
         if op.get('k') == 'const':
@@ -722,7 +726,39 @@ class ExprBuilder:
                 return args[idx]
         if t.get('indirect'):
             return E('call', '<indirect>', (self.operand(t['func'], depth, stack),) + args, None)
+        if self.inline and self._inline_depth < 2:
+            inl = self._inline_call(t, args)
+            if inl is not None:
+                return inl
         return E('call', name, args, t.get('resolved'))
+
+    def _inline_call(self, t, args):
+        facts = getattr(self.f, 'facts', None)
+        if facts is None:
+            return None
+        g = facts.fn_opt(t.get('resolved') or '') or facts.fn_opt(t.get('callee') or '')
+        if g is None or g is self.f or g.kind == 'closure' or len(g.blocks) > 6 or g.nargs != len(args):
+            return None
+        # straight line only: every non-cleanup block has at most one normal successor
+        for b, blk in enumerate(g.blocks):
+            if not blk['cleanup'] and len(set(g.succ[b])) > 1:
+                return None
+        gb = ExprBuilder(g, multi='leaf', transparent=self.transparent, inline=True, _inline_depth=self._inline_depth + 1)
+        ret = None
+        n = 0
+        for loc, s in g.assigns():
+            if s['lhs']['l'] == 0 and not s['lhs']['p']:
+                ret = gb.rvalue(s['rv'])
+                n += 1
+        for loc, tt in g.calls():
+            if not tt['dest']['p'] and tt['dest']['l'] == 0:
+                ret = gb.call(tt)
+                n += 1
+        if n != 1 or ret is None:
+            return None
+        if any(x[0] == 'local' for x in subexprs(ret)):
+            return None
+        return subst_args(ret, args)
 
     def rvalue(self, rv, depth=0, stack=()):
         k = rv['k']
@@ -753,6 +789,22 @@ class ExprBuilder:
         if k == 'repeat':
             return E('repeat', self.operand(rv['op'], depth, stack), rv['n'])
         return E('unknown', rv.get('text'))
+
+
+def subst_args(e, args):
+    """replace ('arg', i, name) leaves by args[i-1] throughout an expression"""
+    if not isinstance(e, Expr):
+        if isinstance(e, tuple):
+            return tuple(subst_args(x, args) for x in e)
+        return e
+    if e[0] == 'arg' and 1 <= e[1] <= len(args):
+        return args[e[1] - 1]
+    if e[0] == 'proj':
+        base = subst_args(e[1], args)
+        return simplify_proj(base, e[2], e[3] if len(e) > 3 else None)
+    if e[0] == 'ref':
+        return simplify_ref(subst_args(e[1], args))
+    return Expr(tuple(subst_args(x, args) if isinstance(x, (Expr, tuple)) else x for x in e))
 
 
 def simplify_ref(inner):
